@@ -104,7 +104,24 @@ func runC15(ctx *Ctx) {
 	ctx.CheckRapid("skip", ctx.N(800000, 6000000)/ctx.NShards+1, func(rt *rapid.T) *Case {
 		cfg := &model.StreamCfg{Labels: map[string]int{}}
 		var b []byte
-		switch rapid.IntRange(0, 7).Draw(rt, "class") {
+		switch rapid.IntRange(0, 8).Draw(rt, "class") {
+		case 8:
+			// a group holding length-delimited records with hostile or boundary lengths
+			num := protowire.Number(rapid.IntRange(1, 3000).Draw(rt, "gnum"))
+			b = protowire.AppendTag(b, num, protowire.StartGroupType)
+			for i, n := 0, rapid.IntRange(1, 3).Draw(rt, "ninner"); i < n; i++ {
+				b = protowire.AppendTag(b, protowire.Number(rapid.IntRange(1, 100).Draw(rt, "inum")), protowire.BytesType)
+				if rapid.IntRange(0, 2).Draw(rt, "hostile") == 0 {
+					b = append(b, rapid.SampledFrom(hostileVarints).Draw(rt, "hlen")...)
+					b = append(b, rapid.SliceOfN(rapid.Byte(), 0, 5).Draw(rt, "hbody")...)
+				} else {
+					n := rapid.SampledFrom([]int{0, 1, 3, 127, 128, 200, 300}).Draw(rt, "blen")
+					b = protowire.AppendBytes(b, make([]byte, n))
+				}
+			}
+			if rapid.IntRange(0, 3).Draw(rt, "close") != 0 {
+				b = protowire.AppendTag(b, num, protowire.EndGroupType)
+			}
 		case 0:
 			b = rapid.SliceOfN(rapid.Byte(), 0, 24).Draw(rt, "random")
 		case 1:
